@@ -13,26 +13,34 @@
    failed block write leaves its bytes in the file and drops the buffered entries; after, the
    writer cuts a torn tail off on open (truncate to the end of the last complete block,
    fsync), re-creates a file whose header/name area is incomplete, and on a failed block
-   write truncates back and keeps the entries.  ftruncate itself is assumed not to fail
-   (the code's retry flag tailDirty is therefore not modelled). *)
+   write truncates back and keeps the entries.  The truncation back may fail too
+   ([FFshortDirty]): the writer then remembers the dirty tail ([w_dirty] = tailDirty) and cuts
+   it off before the next block, failing the flush as long as that truncation fails
+   ([FFpre]). *)
 From HV Require Import Base.Prelude Storage.C02Fs.
 Local Open Scope N_scope.
 
 Inductive flush_fault :=
 | FFok                 (* both writes of the block succeeded, header update too *)
 | FFshort (j : N)      (* the block write stopped after j bytes (j < 16 + payload) and failed *)
-| FFhdr.               (* block written, the in-place header update failed *)
+| FFhdr                (* block written, the in-place header update failed *)
+| FFshortDirty (j : N) (* as FFshort, and the truncation back to the last block failed too *)
+| FFpre.               (* the flush found a dirty tail and its truncation failed again: nothing
+                          else was attempted (as FFok when there is no dirty tail) *)
 
 Inductive api :=
 | AWrite (e : entry) (fl : option (N * flush_fault))  (* WriteEntry; Some = it flushed *)
 | AFlush (sz : N) (ff : flush_fault)
 | ASync (sz : N) (ff : flush_fault) (sync_ok : bool)
 | AClose (sz : N) (ff : flush_fault) (sync_ok : bool)
-| AOpen.                                               (* NewFileWriter[WithName] *)
+| AOpen                                                (* NewFileWriter[WithName] *)
+| AOpenFail (truncated : bool).  (* opening an existing file failed while cutting its torn tail
+                                    off: the ftruncate failed (false) or it succeeded and the
+                                    fsync after it failed (true); no writer results *)
 
-Record wstate := mkw { w_open : bool; w_buf : list entry; w_end : N }.
+Record wstate := mkw { w_open : bool; w_buf : list entry; w_end : N; w_dirty : bool }.
 
-Definition w_closed : wstate := mkw false [] 0.
+Definition w_closed : wstate := mkw false [] 0 false.
 
 (* the appending writes that put the first j bytes of block b into the file *)
 Definition block_write_ops (b : block) (j : N) : list fsop :=
@@ -41,22 +49,40 @@ Definition block_write_ops (b : block) (j : N) : list fsop :=
 
 Definition blen (b : block) : N := BH + b_plen b.
 
-(* flushLocked *)
-Definition flush (fixed : bool) (w : wstate) (sz : N) (ff : flush_fault)
+(* flushLocked once no dirty tail is left *)
+Definition flush_clean (fixed : bool) (w : wstate) (sz : N) (ff : flush_fault)
   : wstate * list fsop * bool :=
   match w_buf w with
   | [] => (w, [], true)
   | _ =>
       let b := mkblock (w_buf w) sz in
+      let done := mkw (w_open w) [] (w_end w + blen b) false in
       match ff with
       | FFshort j =>
           if fixed
           then (w, block_write_ops b j ++ [OTrunc (w_end w)], false)
-          else (mkw (w_open w) [] (w_end w), block_write_ops b j, false)
-      | FFok => (mkw (w_open w) [] (w_end w + blen b), block_write_ops b (blen b) ++ [OHdr], true)
-      | FFhdr => (mkw (w_open w) [] (w_end w + blen b), block_write_ops b (blen b) ++ [OHdr], false)
+          else (mkw (w_open w) [] (w_end w) false, block_write_ops b j, false)
+      | FFshortDirty j =>
+          if fixed
+          then (mkw (w_open w) (w_buf w) (w_end w) true, block_write_ops b j, false)
+          else (mkw (w_open w) [] (w_end w) false, block_write_ops b j, false)
+      | FFok | FFpre => (done, block_write_ops b (blen b) ++ [OHdr], true)
+      | FFhdr => (done, block_write_ops b (blen b) ++ [OHdr], false)
       end
   end.
+
+(* flushLocked *)
+Definition flush (fixed : bool) (w : wstate) (sz : N) (ff : flush_fault)
+  : wstate * list fsop * bool :=
+  if w_dirty w then
+    match ff with
+    | FFpre => (w, [], false)
+    | _ =>
+        let '(w1, ops, ok) :=
+          flush_clean fixed (mkw (w_open w) (w_buf w) (w_end w) false) sz ff in
+        (w1, OTrunc (w_end w) :: ops, ok)
+    end
+  else flush_clean fixed w sz ff.
 
 Definition create_ops (nlen : N) : list fsop :=
   [OCreate; OApp (SHdr nlen) FH; OApp (SName nlen) nlen].
@@ -64,14 +90,14 @@ Definition create_ops (nlen : N) : list fsop :=
 (* NewFileWriterWithName: createNewFile / openExistingFile *)
 Definition open_file (fixed : bool) (nlen : N) (f : fs) : wstate * list fsop :=
   match vol f with
-  | None => (mkw true [] (pre_len nlen), create_ops nlen)
+  | None => (mkw true [] (pre_len nlen) false, create_ops nlen)
   | Some c =>
       if fixed then
-        if clen c <? pre_len nlen then (mkw true [] (pre_len nlen), create_ops nlen)
+        if clen c <? pre_len nlen then (mkw true [] (pre_len nlen) false, create_ops nlen)
         else
           let g := good_len nlen c in
-          (mkw true [] g, if g <? clen c then [OTrunc g; OFsync] else [])
-      else (mkw true [] (clen c), [])
+          (mkw true [] g false, if g <? clen c then [OTrunc g; OFsync] else [])
+      else (mkw true [] (clen c) false, [])
   end.
 
 Definition w_step_gen (fixed : bool) (nlen : N) (f : fs) (w : wstate) (a : api)
@@ -80,10 +106,20 @@ Definition w_step_gen (fixed : bool) (nlen : N) (f : fs) (w : wstate) (a : api)
   | AOpen =>
       if w_open w then (w, [], false)
       else let '(w', ops) := open_file fixed nlen f in (w', ops, true)
+  | AOpenFail tr =>
+      if w_open w then (w, [], false)
+      else
+        match vol f with
+        | Some c =>
+            if fixed && (pre_len nlen <=? clen c) && (good_len nlen c <? clen c)
+            then (w, (if tr then [OTrunc (good_len nlen c)] else []) ++ [OClose], false)
+            else (w, [], false)
+        | None => (w, [], false)
+        end
   | AWrite e fl =>
       if negb (w_open w) then (w, [], false)
       else
-        let w1 := mkw true (w_buf w ++ [e]) (w_end w) in
+        let w1 := mkw true (w_buf w ++ [e]) (w_end w) (w_dirty w) in
         match fl with
         | None => (w1, [], true)
         | Some (sz, ff) => flush fixed w1 sz ff
@@ -129,7 +165,7 @@ Definition oplog := oplog_gen true.
 (* entries submitted by a history (WriteEntry calls reaching an open writer) and whether a
    Close failed (which discards what was still buffered) – used by the specifications *)
 Definition ff_ok (sz : N) (ff : flush_fault) : Prop :=
-  1 <= sz /\ match ff with FFshort j => j < BH + sz | _ => True end.
+  1 <= sz /\ match ff with FFshort j | FFshortDirty j => j < BH + sz | _ => True end.
 
 Definition api_ok (a : api) : Prop :=
   match a with
@@ -139,7 +175,7 @@ Definition api_ok (a : api) : Prop :=
   end.
 
 Definition ff_okb (sz : N) (ff : flush_fault) : bool :=
-  (1 <=? sz) && match ff with FFshort j => j <? BH + sz | _ => true end.
+  (1 <=? sz) && match ff with FFshort j | FFshortDirty j => j <? BH + sz | _ => true end.
 
 Definition api_okb (a : api) : bool :=
   match a with
